@@ -584,10 +584,46 @@ def record_real(cfg, name, **kw):
     return obs, evs
 
 
-def validate_real_traces(cfgs, records, name, timeout=900):
-    """records: list of (cfg index, obs, events).  Returns (rejected list, TlcResult)."""
+BARS_TRACE_CFG = """SPECIFICATION TraceSpec
+INVARIANT TypeOK
+INVARIANT NoReplay
+INVARIANT NeverAhead
+INVARIANT ClosedOutsideStages
+INVARIANT StageBarNeverAhead
+INVARIANT Progress_
+POSTCONDITION AllAccepted
+CHECK_DEADLOCK FALSE
+"""
+
+BARS_CFG = """SPECIFICATION BSpec
+INVARIANT TypeOK
+INVARIANT NeverAhead
+INVARIANT SeqExact
+INVARIANT FullWhenDone
+INVARIANT ClosedOutsideStages
+INVARIANT StageBarCounts
+INVARIANT StageBarNeverAhead
+PROPERTY SamplerSafety
+CHECK_DEADLOCK TRUE
+"""
+
+
+def run_bars_spec(cfgs, name, timeout=1500):
+    """Model check SamplerBars.tla (progress-display refinement of Sampler.tla) on a configuration family."""
     d = tlc.fresh_dir(name)
-    tlc.stage_specs(d, ["Sampler.tla", "Trace_Sampler.tla"])
+    tlc.stage_specs(d, ["Sampler.tla", "SamplerBars.tla"])
+    (d / "SamplerConsts.tla").write_text(consts_module(cfgs))
+    res = tlc.run_tlc(d, "SamplerBars", BARS_CFG, workers=8, timeout=timeout, cpus=8, heap="6g", coverage=True)
+    if not res.ok:
+        raise MachineryError(f"SamplerBars.tla violates its own properties: {res.violated}\n{res.stdout[-1500:]}")
+    return res
+
+
+def validate_real_traces(cfgs, records, name, timeout=900, bars=False):
+    """records: list of (cfg index, obs, events).  Returns (rejected list, TlcResult).
+    bars: validate against SamplerBars.tla, progress-bar events included."""
+    d = tlc.fresh_dir(name)
+    tlc.stage_specs(d, ["Sampler.tla", "Trace_Sampler.tla"] if not bars else ["Sampler.tla", "SamplerBars.tla", "Trace_SamplerBars.tla"])
     used = sorted({g for g, _, _ in records})
     local = {g: i + 1 for i, g in enumerate(used)}
     (d / "SamplerConsts.tla").write_text(consts_module([cfgs[g] for g in used]))
@@ -601,6 +637,9 @@ def validate_real_traces(cfgs, records, name, timeout=900):
                 ev_t.append({"ev": "Interrupt", "site": e["site"], "c": e["c"], "s": e["s"], "k": e["k"]})
             elif e["ev"] == "AdFinal":
                 ev_t.append({"ev": "AdFinal", "a": e["a"], "s": e["s"]})
+            elif bars and e["ev"] in ("BarSeq", "BarEnter", "BarUpd", "BarExit") and e.get("c", 0) > 0:
+                ev_t.append({"ev": e["ev"], "c": e["c"], "i": e.get("i", 0), "n": e.get("n", 0), "active": bool(e.get("active", False)),
+                             "a": "", "k": 0, "s": 0, "site": ""})
         nchain, nr = cfgs[g]["nchain"], cfgs[g]["nrows"]
         o = {"tr": [[[row[0], row[1]] for row in obs["tr"][c]] for c in range(nchain)],
              "sr": [[[row[0], row[1]] for row in obs["sr"][c]] for c in range(nchain)],
@@ -610,8 +649,8 @@ def validate_real_traces(cfgs, records, name, timeout=900):
             tlc.to_tla(o["finals"])))
     (d / "TraceDataSampler.tla").write_text(
         "---- MODULE TraceDataSampler ----\nEXTENDS Integers\nTraces == <<\n " + ",\n ".join(items) + "\n>>\n====\n")
-    res = tlc.run_tlc(d, "Trace_Sampler", TRACE_CFG, workers=1, timeout=timeout, dump_trace=False, cpus=4,
-                      heap="4g", dfs_queue=True)
+    res = tlc.run_tlc(d, "Trace_SamplerBars" if bars else "Trace_Sampler", BARS_TRACE_CFG if bars else TRACE_CFG, workers=1,
+                      timeout=timeout, dump_trace=False, cpus=4, heap="4g", dfs_queue=True)
     rejected = []
     for r in res.printed:
         if isinstance(r, dict) and "rejected" in r:
